@@ -353,4 +353,80 @@ pub fn check(rep: &Reporter) {
 		let _e = rt.enter();
 		run_case(rep, local, rt, http, ws, g, msg, BatchRequestConfig::Unlimited, "");
 	});
+	// SCHED leg (configuration: message_buffer_capacity 1–2, pipelined calls)
+	for s in pipelined_scenarios(thorough) {
+		crate::sched::explore_auto(&s, rep, if thorough { 400_000 } else { 20_000 }, if thorough { 3 } else { 2 }, 50, std::time::Duration::from_secs(if thorough { 300 } else { 8 }));
+	}
+}
+
+// ---------------------------------------------------------------------------------------------
+// SCHED leg: pipelined calls on one WebSocket connection with a tiny outgoing buffer; every call is answered exactly once
+// whatever the order of the per-call tasks and the connection's send task.
+
+pub struct Pipelined {
+	pub calls: usize,
+	pub buffer: u32,
+	pub slow: bool,
+}
+
+impl crate::sched::Scenario for Pipelined {
+	type State = crate::smem::SrvState;
+	fn name(&self) -> String {
+		format!("srv_mem/pipelined:calls{}:buffer{}:{}", self.calls, self.buffer, if self.slow { "slow" } else { "sync" })
+	}
+	fn config(&self) -> serde_json::Value {
+		json!({"pipelined_calls": self.calls, "message_buffer_capacity": self.buffer, "handler": if self.slow { "async, parks at a point" } else { "sync" }})
+	}
+	fn mask(&self) -> fn(&str) -> bool {
+		super::c04::mask_all_server
+	}
+	fn max_steps(&self) -> usize {
+		300
+	}
+	fn setup(&self) -> Self::State {
+		use crate::smem::{Conn, PeerAct, SrvCfg};
+		let act = if self.slow { PeerAct::SlowCall } else { PeerAct::Call };
+		crate::smem::setup(&SrvCfg { conns: vec![Conn::Ws(vec![act; self.calls])], buffer: self.buffer, slow_steps: 1, ..Default::default() })
+	}
+	fn judge(&self, _st: Self::State, trace: &[String], panics: &[String], status: crate::sched::Status) -> crate::sched::Verdict {
+		let mut v = Vec::new();
+		if status != crate::sched::Status::Quiescent {
+			v.push((format!("machinery:{status:?}"), format!("{status:?}")));
+		}
+		for p in panics {
+			v.push(("panic".into(), p.clone()));
+		}
+		let mut outcome = Vec::new();
+		for l in trace {
+			let Some(t) = l.strip_prefix("c0:tx:") else { continue };
+			let Ok(m) = serde_json::from_str::<serde_json::Value>(t) else { continue };
+			let id = m["id"].clone();
+			let replies = trace.iter().filter(|x| x.strip_prefix("c0:rx:").and_then(|r| serde_json::from_str::<serde_json::Value>(r).ok()).map_or(false, |r| r["id"] == id)).count();
+			outcome.push(replies);
+			if replies != 1 {
+				v.push((
+					format!("pipelined:{}-replies", if replies == 0 { "no".to_string() } else { replies.to_string() }),
+					format!("{} pipelined calls with message_buffer_capacity = {}: the call with id {id} got {replies} replies although the connection stayed open", self.calls, self.buffer),
+				));
+			}
+		}
+		crate::sched::Verdict { violations: v, outcome: format!("{outcome:?}") }
+	}
+}
+
+pub fn pipelined_scenarios(thorough: bool) -> Vec<Pipelined> {
+	let mut v = vec![Pipelined { calls: 3, buffer: 1, slow: false }, Pipelined { calls: 2, buffer: 1, slow: true }, Pipelined { calls: 3, buffer: 2, slow: false }];
+	if thorough {
+		v.push(Pipelined { calls: 4, buffer: 1, slow: false });
+		v.push(Pipelined { calls: 3, buffer: 1, slow: true });
+	}
+	v
+}
+
+pub fn dyn_scenarios() -> Vec<Box<dyn crate::sched::DynScenario>> {
+	let mut v: Vec<Box<dyn crate::sched::DynScenario>> = Vec::new();
+	for s in pipelined_scenarios(true) {
+		v.push(Box::new(s));
+	}
+	v
 }
